@@ -116,7 +116,7 @@ func runPath(e *Engine, solver *Solver, item WorkItem) (res *PathResult, pending
 	}
 	res.Trace = px.trace
 	res.Steps = px.steps
-	if res.Status == stOK && e.wantSample() {
+	if res.Status == stOK && e.wantSample(px.trace) {
 		func() {
 			defer func() {
 				if r := recover(); r != nil {
@@ -138,10 +138,27 @@ func runPath(e *Engine, solver *Solver, item WorkItem) (res *PathResult, pending
 	return res, px.pending
 }
 
-func (e *Engine) wantSample() bool {
+// traceHash orders paths pseudo-randomly (seeded) so that the sampled paths are spread over the
+// whole exploration instead of being the first ones found.
+func (e *Engine) traceHash(tr []Decision) uint64 {
+	h := uint64(1469598103934665603) ^ uint64(e.seed)*1099511628211
+	for _, d := range tr {
+		h ^= uint64(d.K)
+		h *= 1099511628211
+		h ^= uint64(d.V)
+		h *= 1099511628211
+	}
+	return h
+}
+
+func (e *Engine) wantSample(tr []Decision) bool {
+	h := e.traceHash(tr)
 	e.mu.Lock()
 	defer e.mu.Unlock()
-	return len(e.results.Samples) < e.cfg.SampleCount
+	if len(e.results.Samples) < e.cfg.SampleCount {
+		return true
+	}
+	return h < e.results.sampleMax
 }
 
 // substituteObs replaces $k placeholders by model values of observed terms.
